@@ -105,6 +105,25 @@ def sound_items(make_elem, classes, v):
     return conform(r.xs, tp)
 
 
+def sound_overlap(make_elem, classes, required, v, supplied):
+    """the property's JSON name also matches a patternProperties regex of the model"""
+    from vf.common import Object, Property, Element, verdict, NotPassed, jcopy
+
+    el = make_elem()
+    M = Object.inline("M", properties={"ab": Property(el, required=required)}, patternProperties={"^a": Element(minProperties=0, minItems=0), "b$": Element()})
+    ann_text = M.properties["ab"].annotation
+    tp = eval_annotation(ann_text, classes(el) if callable(classes) else classes)
+    ok, r = verdict(M, {"ab": jcopy(v)} if supplied else {})
+    if not ok:
+        return True
+    val = r.ab
+    if not conform(val, tp):
+        return False
+    if not ann_text.startswith("Maybe[") and isinstance(val, NotPassed):
+        return False
+    return True
+
+
 def reached(make_elem, required, v, supplied):
     from vf.common import Object, Property, accepts, jcopy
 
@@ -199,6 +218,20 @@ return sound_items(make_elem, _cls, [v, v] if two else [v])
 """
         hs.append(mk(f"c19_items_{name}", f"{hargs}, two: bool, v: {vt}", vpre, body, tier="thorough", timeout=150, group="items",
                      covers=f"{expr} as items of an array property"))
+    for name in ("class", "array_of_class", "number", "class_default_empty"):
+        if name in ELEMS:
+            hargs, expr, vt, vpre, _tier = ELEMS[name]
+            pre_d = []
+        else:
+            hargs, expr, pre_d = DEFAULTED[name]
+            vt, vpre = "Union[int, None, List[int], Dict[str, int]]", OVPRE
+        body = f"""
+def make_elem():
+    return {expr}
+return sound_overlap(make_elem, _cls, rq, v, sup)
+"""
+        hs.append(mk(f"c19_overlap_{name}", f"{hargs}, rq: bool, sup: bool, v: {vt}", list(pre_d) + list(vpre), body, timeout=150, group="overlap",
+                     covers=f"{expr} under a property whose name also matches patternProperties regexes"))
     for name, (hargs, expr, pre) in DEFAULTED.items():
         body = f"""
 def make_elem():
